@@ -1,14 +1,26 @@
 (* C16 — property theorems only.  Each is closed by [exact lemma]; Print Assumptions beneath.
-   Model/C16.v is the FeatureContainer state machine; [cfg_fixed] = the repaired code (cache cleared by
-   addFeature/sort, range and read lookups re-index, half open pysam blocks), [cfg_head] = the code at HEAD.
+   Model/C16.v is the FeatureContainer state machine; [cfg_fixed] = the machine with the kernel and switches of the CURRENT source
+   (Gen/GenFeatures.v; = [cfg_ref], the repaired code, by C16_source_kernel), [cfg_head] = the code at HEAD.
    hit x q f = start f <= x <= end f and strand matches; hit_between a b q f = max a (start f) <= min b (end f)
    and strand matches; trace_ok / ans_ok (Proofs/C16_b.v) = every answer of a run is the brute force answer over
    everything added so far (multiset equality for the list valued default lookup, duplicate free set equality for
    the set valued calls). *)
 From Coq Require Import ZArith List Bool Permutation.
 Import ListNotations.
-From SCMO Require Import Model.C16 Proofs.C16_a Proofs.C16_b Proofs.C16_c.
+From SCMO Require Import Gen.GenFeatures Model.C16 Proofs.C16_a Proofs.C16_b Proofs.C16_c.
 Open Scope Z_scope.
+
+(* T: the lookup kernel, index construction pieces, block end and switches REGENERATED from the current source
+   (Gen/GenFeatures.v: searchsorted sides and keys, scan / overlap / strand conditions, window ends, `end - 1`, which
+   lookups re-index first, where cache_clear is called) are the reference kernel the theorems below are proved about *)
+Theorem C16_source_kernel :
+  (forall r x q o, at_rec r x q o = at_rec_ref r x q o) /\
+  (forall r a b q, between_rec r a b q = between_rec_ref r a b q) /\
+  (forall fs, pre_rec fs = pre_rec_ref fs) /\ (forall l v, ss g_fastidx_side l v = ss_left l v) /\
+  (forall bs be, g_block_start bs be = bs /\ g_block_end bs be = be - 1) /\
+  g_autosort_at = true /\ cfg_fixed = cfg_ref.
+Proof. exact source_kernel. Qed.
+Print Assumptions C16_source_kernel.
 
 (* default lookup ('bdbnb', the fastIndex window) on the index sort() builds from ANY feature list with
    start <= end (nested, identical, zero length): exactly the overlapping features, with multiplicity *)
